@@ -13,6 +13,7 @@ pub mod c11;
 pub mod c12;
 pub mod c14;
 pub mod c15;
+pub mod c16;
 pub mod c17;
 pub mod c18;
 pub mod c19;
@@ -53,6 +54,7 @@ pub fn get(id: &str) -> Option<Prop> {
         "C12" => Some(c12::prop()),
         "C14" => Some(c14::prop()),
         "C15" => Some(c15::prop()),
+        "C16" => Some(c16::prop()),
         "C17" => Some(c17::prop()),
         "C18" => Some(c18::prop()),
         "C19" => Some(c19::prop()),
